@@ -145,6 +145,16 @@ def task(item):
     if x:
         x['inputs']['trace'] = list(trace)
         v.append(x)
+    # nested definitions (lang_ref: identical to a top-level definition): the same model with its definitions written inline
+    for lab, ispecs in render.render_inline_variants(model)[:1]:
+        n += 1
+        io = impl.compile_specs(ispecs)
+        oc['valid-inline:' + io.kind] += 1
+        x = judge_valid(ispecs, io)
+        if x:
+            x['id'] = x['id'].replace('refused:valid-spec:', 'refused:valid-spec:nested-definition:')
+            x['inputs']['trace'] = list(trace) + [lab]
+            v.append(x)
     for rule, kind, label, fspecs in faults.faults(model, flags, base=depth <= BASE_DEPTH[0]):
         if fspecs is None:
             continue
